@@ -67,6 +67,7 @@ type env struct {
 	dist     hx.Counter
 	inBlock  bool
 	valPool  []uint64 // pool id per validator (0 = none)
+	bk       uint64   // basket the next basket operation addresses
 	shareSet map[int64][2]int64
 	notes    []string
 }
@@ -520,6 +521,9 @@ func (e *env) tx(kind string, signer int, msgs []sdk.Msg, model []string, args m
 	var r abcitypes.ResponseDeliverTx
 	p := hx.Try(func() { r = c.App.DeliverTx(abcitypes.RequestDeliverTx{Tx: bz}) })
 	si.ok = p == "" && r.Code == 0
+	if !si.ok && len(r.Events) == 0 {
+		si.fee[2] = 0 // rejected before the fee was taken (ValidateBasic / ante): nothing may change at all
+	}
 	if !si.ok {
 		si.err = p + r.Log
 		if len(si.err) > 160 {
